@@ -183,3 +183,19 @@ Section TrajA.
     let '(rho3, dR3, dP3) := collapse_apply O n a2 coll rho1 dR2 dP2 in
     (mkA (mkT x1 v2 rho3 a2 (oadd O (ptime b) dt)) (pv b) dR3 dP3, att, coll).
 End TrajA.
+
+(* ---- whole A-FSSH runs ---- *)
+Section RunA.
+  Context {T : Type} (O : Ops T).
+  (* per-pass inputs of an A-FSSH run *)
+  Record adata := mkAD { azeta : T; aeprev : elec (T:=T); ae0 : elec (T:=T); ae1 : elec (T:=T); afm1 : list (list (list T));
+                         aepsR : list T; acoR : mat (T:=T); alam : list T; aC : mat (T:=T); aetas : list T }.
+  Fixpoint run_af (n : nat) (m : list T) (dt : T) (poisson : bool) (ds : list adata) (s : astate (T:=T))
+    : astate (T:=T) * list (option (nat * bool) * bool) :=
+    match ds with
+    | [] => (s, [])
+    | d :: ds' =>
+        let '(s1, att, coll) := step_af O n m dt poisson (azeta d) (aeprev d) (ae0 d) (ae1 d) (afm1 d) (aepsR d) (acoR d) (alam d) (aC d) (aetas d) s in
+        let '(sf, evs) := run_af n m dt poisson ds' s1 in (sf, (att, coll) :: evs)
+    end.
+End RunA.
